@@ -104,7 +104,7 @@ func draw(rt *rapid.T) Scenario {
 	}
 	sc.Upstreams = []int{1, 1, 1, 2, 2, 3}[rapid.IntRange(0, 5).Draw(rt, "upstreams")]
 	sc.Concurrency = rapid.IntRange(1, 4).Draw(rt, "concurrency")
-	sc.RateLimit = []int{1, 20, 100, 10000}[rapid.IntRange(0, 3).Draw(rt, "rl")]
+	sc.RateLimit = []int{1, 20, 100, 10000, 2000000000, 2000000000}[rapid.IntRange(0, 5).Draw(rt, "rl")]
 	sc.TimeoutS = []int{1, 5, 30, 120}[rapid.IntRange(0, 3).Draw(rt, "timeout")]
 	sc.ConfigTTLs = []int{0, 0, 1, 30, 600, 1800}[rapid.IntRange(0, 5).Draw(rt, "cfgttl")]
 	sc.OffsetNs = rapid.Int64Range(0, int64(2*time.Hour)).Draw(rt, "offset")
